@@ -7,6 +7,7 @@ from fractions import Fraction
 from .. import lib
 from .. import c17_prog
 from .. import c17_range
+from .. import c17_seq
 
 PROP = "C17"
 PROP_FILE = "Props/C17.v"
@@ -148,13 +149,25 @@ def tie(tier, seed, replay):
     if binary is None:
         raise lib.Infra("ds_driver does not build against /repo:\n" + out[-3000:])
     pmism, pstats = [], None
+    smism, sstats = [], None
     if replay:
         cases = [json.load(open(replay))["case"]]
         if cases[0].get("family") == "prog":
             pmism, pstats = c17_prog.replay(cases[0])
             cases = []
+        elif cases[0].get("family") == "seq":
+            smism, sstats = c17_seq.run(binary, cases, tag="C17seqreplay")
+            cases = []
     else:
         corpus = [json.loads(l) for l in open(lib.VERIF + "/corpus/C17.jsonl")] if lib.os.path.exists(lib.VERIF + "/corpus/C17.jsonl") else []
+        # one aggregator VALUE applied to a sequence of inputs (gen/c17_seq.py, driver suite `aggseq`)
+        smism, sstats = c17_seq.run(binary, [c for c in corpus if c.get("family") == "seq"] + c17_seq.gen_cases(tier, seed))
+        if any(m["kind"] == "impl_violates_spec" for m in smism):
+            first = min((m for m in smism if m["kind"] == "impl_violates_spec"), key=lambda m: len(json.dumps(m["case"])))
+            small = c17_seq.minimise(binary, first["case"])
+            if small["seq"] != first["case"]["seq"]:
+                smism += c17_seq.run(binary, [small], tag="C17seqmin")[0]
+        corpus = [c for c in corpus if c.get("family") != "seq"]
         cases = [c for c in corpus if c.get("family") != "prog"] + gen_cases(tier, seed)
         pcorpus = [c for c in corpus if c.get("family") == "prog"]
         extra = [dict(id="corpus%d" % i, macro=c["macro"], rules=c["rules"], inputs=[(c.get("input_name", "corpus"), {k: [tuple(t) for t in v] for k, v in c["input"].items()})])
@@ -163,6 +176,8 @@ def tie(tier, seed, replay):
         progs = c17_prog.gen_programs(tier, seed)
         # value range: the same rule shapes (without `sum`) over aggregated columns at / near i32::MIN and i32::MAX
         progs += c17_range.range_programs(tier, seed, c17_prog)
+        # the aggregator evaluated ONCE by a `let` of the rule and applied per group (own inputs: many groups of different sizes)
+        progs += c17_prog.gen_bound_programs(tier, seed)
         pmism, pstats = c17_prog.run(extra + progs, c17_prog.base_inputs(lib.rng_for(seed, PROP, "proginputs"), tier))
     # two builds of the driver: overflow checks on (dev profile) / off (release profile); `build` of the case selects one
     impl_lines = [None] * len(cases)
@@ -206,10 +221,12 @@ def tie(tier, seed, replay):
     for c in cases:
         b = min(len(c["vals"]), 8)
         lens[b] = lens.get(b, 0) + 1
-    mism += pmism
+    mism += smism + pmism
     pst = pstats or dict(evaluations=0, distinct_nontrivial=0, samples=[])
     psamples = pst.pop("samples", [])
-    return dict(evaluations=len(cases) + pst["evaluations"], distinct_nontrivial=len(seen) + pst["distinct_nontrivial"],
+    sst = sstats or dict(evaluations=0, distinct_nontrivial=0, samples=[])
+    psamples = sst.pop("samples", []) + psamples
+    return dict(evaluations=len(cases) + pst["evaluations"] + sst["evaluations"], distinct_nontrivial=len(seen) + pst["distinct_nontrivial"] + sst["distinct_nontrivial"],
                 rule="function level: exhaustive lists over {-2..2} up to length 4 (quick) / 5 (thorough) for min/max/sum/mean; percentile: lists over {0,1,2} x 12 dyadic p incl. 0 and 100; random long lists; count/not under 4 iterator shapes (size hints); non-trivial = non-empty input; distinct = distinct (aggregator, p, iterator kind, list, column type, build). "
                      "Value range (gen/c17_range.py): min / max / percentile / sum / count / not at i8 i16 i32 i64 u8 u16 u32 u64 and mean at i8 i16 i32 u8 u16 u32 f32: all lists of length <= 2 over the "
                      "edge values {MIN, MIN+1, MIN/2, -1, 0, 1, MAX/2, MAX/2+1, MAX-1, MAX} of the type, random lists (length 2..100) near MAX / near MIN / at both ends / uniform over the type, with repeated values, "
@@ -217,15 +234,22 @@ def tie(tier, seed, replay):
                      "sum is compared with the definition only inside its precondition (negative and positive inputs each total within the type), outside it only with the model of the code (panic with overflow checks, wrap without); "
                      "mean is compared bit-exactly (tolerance 0) with the exact rational mean rounded to f64: every case has sum|v| <= 2^53, so the code's f64 additions are exact and its one division is correctly rounded; "
                      "every range case runs on the driver built with overflow checks (dev profile) and without (release profile). "
+                     "One aggregator VALUE applied to a sequence (gen/c17_seq.py, driver suite aggseq: `let f = percentile(p)` / `let f = min` .. bound once, applied to 2-5 inputs in a row, every result iterator consumed before the next application): "
+                     "all pairs of lists over {0,1,2} of length <= 2 for min / max / sum / mean / percentile x 12 p; count / not on all pairs (thorough: triples) of lengths in {0,1,2,3,5} under the 4 iterator shapes; "
+                     "shaped random sequences (non-empty then empty, empty first, long then short, short then long, repeated, same multiset reordered, disjoint value ranges, alternating with empty, random) over small / wide value domains and all column types; "
+                     "EVERY application is compared with the definition on its own input and with Agg/AggStateless.v agg_seq (= the definition per input, agg_seq_independent); one evaluation = one sequence; non-trivial = some application follows a non-empty one; a failing sequence is minimised (inputs, then elements dropped). "
                      "Program level (gen/c17_prog.py): every aggregator and `!rel(..)` in `agg` items of compiled ascent! / ascent_par! rules with 0-5 body clauses, aggregate first / middle / last, "
-                     "key = bound variable / constant / expression / wildcard, aggregated relation unary / binary / ternary projection, a recursive family; inputs: base, base with each relation emptied in turn, "
+                     "key = bound variable / constant / expression / wildcard, aggregated relation unary / binary / ternary projection, a recursive family; "
+                     "the BOUND family: the aggregator evaluated once by a `let` of the rule (`let f = ascent::aggregators::percentile(50.0), a(k), agg s = (f)(x) in r(k, x)`, likewise min / max / sum / count / mean / not through `let f = ascent::aggregators::min` ..; "
+                     "`let` first / after the first clause / right before the aggregate; non-recursive, recursive, one ascent_par! program) so that ONE value is applied to every group, on inputs with 8 keys whose groups have sizes 0..6 in shuffled order (+ base, aggregated relations empty, all empty); "
+                     "inputs: base, base with each relation emptied in turn, "
                      "all aggregated relations empty, foreign keys only, singletons, all empty, random; value range: all mean rules and a third (thorough: all) of the min / max / count / percentile / not rules "
                      "on inputs whose aggregated relations hold values at / near i32::MIN and i32::MAX under small keys (totals far outside i32; programs are compiled with overflow checks); one evaluation = (rule, input), compared with the python definition oracle and with "
                      "Agg/AggClauseModel.v agg_clause on every (aggregator, key pattern, rows) asked; non-trivial = the aggregate is evaluated for at least one binding; distinct = distinct (macro, rule text, input)",
                 samples=[dict(case=c, impl=i[0], model=m) for c, i, m in
                          [x for x in zip(cases, impl, model) if not x[0].get("ty")][:3] + [x for x in zip(cases, impl, model) if x[0].get("ty") and 2 <= len(x[0]["vals"]) <= 5 and x[0]["name"] in ("mean", "sum")][-4:]] + psamples,
                 distribution=dict(by_aggregator=dist, by_input_length_capped_8=lens, percentile_ps=["%d/%d" % p for p in PS], by_column_type=by_ty, by_build=by_build, range_families=by_family,
-                                  sum_cases_outside_precondition_model_only=outside_pre, program_level=pst),
+                                  sum_cases_outside_precondition_model_only=outside_pre, one_value_many_applications=sst, program_level=pst),
                 mismatches=mism,
                 trusted_base=["ds_driver (Rust) + gen/props/c17.py renderers and the python definition oracle",
                               "program level: gen/c17_prog.py (program renderer, naive rule evaluator, definition oracle), gen/prog.py, rustc; the rule-level semantics around the agg item (joins, strata) is C04's subject, here only the oracle's naive evaluation",
